@@ -186,6 +186,7 @@ class Engine:
         self.path_log = []      # (outcome, trail decisions, pc) for sampled differential replay
         self.keep_paths = 0
         self.cvc5_streak = 0
+        self.prefer_cvc5 = False
 
     # ---------------------------------------------------------------- solver portfolio
     def _solve(self, assertions, want_model=True):
@@ -197,7 +198,7 @@ class Engine:
         r, m = "unknown", None
         plan = [(self.seed, self.fast_ms), ("cvc5", 10), (self.seed + 1, self.fast_ms * 4),
                 (self.seed + 2, self.timeout_ms), ("cvc5", 40), (self.seed + 3, self.timeout_ms)]
-        if self.cvc5_streak >= 2:
+        if self.cvc5_streak >= 2 or self.prefer_cvc5:
             # z3's quick attempt keeps failing where cvc5 answers at once: ask cvc5 first for a while
             plan = [("cvc5", 5)] + plan
         for k, (seed, to) in enumerate(plan):
@@ -383,6 +384,11 @@ class Engine:
         if z3.is_false(cond):
             return False
         hit = self.decided.get(cond.get_id())
+        if hit is None and z3.is_app(cond) and cond.decl().kind() in (z3.Z3_OP_STRING_LT, z3.Z3_OP_STRING_LE):
+            hit = self._order_lemma(cond)
+            if hit is not None:
+                self.pc.append(cond if hit else z3.Not(cond))   # a consequence of the path condition (trichotomy)
+                self._record(cond, hit)
         if hit is not None:
             self.stats["cache_hits"] = self.stats.get("cache_hits", 0) + 1
             return hit
@@ -398,11 +404,12 @@ class Engine:
             if self.frontier_depth is not None and i >= self.frontier_depth:
                 raise Frontier()
             says = self._model_says(cond)
-            if _is_membership(cond) and says is not None and self._regular(cond if says else z3.Not(cond)):
-                # the regular lemma proves the side the carried model witnesses: the other side is infeasible
-                self.stats["model_hits"] += 1
-                rt, mt = ("sat", self.model) if says else ("unsat", None)
-                rf, mf = ("unsat", None) if says else ("sat", self.model)
+            reg = self._regular_decide(cond) if _is_regular_literal(cond) else None
+            if reg is not None:
+                # the regular lemma shows one side infeasible; the other is feasible because the path is
+                m_ = self.model if says is reg else None
+                rt, mt = ("sat", m_) if reg else ("unsat", None)
+                rf, mf = ("unsat", None) if reg else ("sat", m_)
             elif says is None:
                 rt, mt = self._check(cond)
                 rf, mf = self._check(z3.Not(cond))
@@ -438,13 +445,22 @@ class Engine:
         """Obligation: under the current path condition `cond` must hold (negation unsat)."""
         cond = self.norm(_b(cond))
         self.stats["obligations"] += 1
-        if z3.is_true(cond) or self.decided.get(cond.get_id()) is True:
+        # discharge conjuncts that the path already fixes (syntactic cache), that follow from the total order of
+        # strings, or that the regular lemma proves; only the rest goes to the solver portfolio
+        rest = []
+        for c in (cond.children() if z3.is_and(cond) else [cond]):
+            if z3.is_true(c) or self.decided.get(c.get_id()) is True:
+                continue
+            if z3.is_app(c) and c.decl().kind() in (z3.Z3_OP_STRING_LT, z3.Z3_OP_STRING_LE) and self._order_lemma(c) is True:
+                continue
+            if _is_membership(c) and self._regular(c):
+                continue
+            rest.append(c)
+        if not rest:
             self.stats["discharged"] += 1
             return True
+        cond = rest[0] if len(rest) == 1 else z3.And(*rest)
         neg = z3.Not(cond)
-        if _is_membership(cond) and self._regular(cond):
-            self.stats["discharged"] += 1
-            return True
         if self._model_says(neg) is True and self._model_ok():
             r = "sat"
         else:
@@ -456,6 +472,40 @@ class Engine:
             raise Unsupported(f"solver unknown on obligation {label}")
         self.cex.append(dict(label=label, pc=list(self.pc), neg=neg, cf_apps=list(self.cf_apps)))
         return False
+
+    def _known(self, e):
+        e = z3.simplify(e)
+        if z3.is_true(e):
+            return True
+        if z3.is_false(e):
+            return False
+        return self.decided.get(e.get_id())
+
+    def _order_lemma(self, cond):
+        """String order is a strict total order: decide a < b / a <= b from what the path already fixed about
+        b < a, b <= a and a == b (solvers lack this lemma and time out on it)."""
+        a, b = cond.arg(0), cond.arg(1)
+        strict = cond.decl().kind() == z3.Z3_OP_STRING_LT
+        eq = self._known(a == b)
+        if eq is None:
+            eq = self._known(b == a)
+        rev_lt, rev_le = self._known(b < a), self._known(b <= a)
+        same_lt, same_le = self._known(a < b), self._known(a <= b)
+        if strict:
+            if eq is True or rev_lt is True or rev_le is True or same_le is False:
+                return False
+            if (rev_lt is False and eq is False) or rev_le is False or (same_le is True and eq is False):
+                return True
+        else:
+            if eq is True or same_lt is True or rev_lt is False:
+                return True
+            if rev_lt is True or (rev_le is True and eq is False):
+                return False
+        return None
+
+    def _regular_decide(self, cond):
+        from .regular import decide_literal
+        return decide_literal(self, cond)
 
     def _regular(self, cond):
         from .regular import prove_membership
@@ -684,6 +734,23 @@ def E():
 
 
 # -------------------------------------------------------------------- z3 helpers
+_REG_KINDS = (z3.Z3_OP_SEQ_IN_RE, z3.Z3_OP_SEQ_CONTAINS, z3.Z3_OP_SEQ_PREFIX, z3.Z3_OP_SEQ_SUFFIX)
+
+
+def _is_regular_literal(cond):
+    c = cond.arg(0) if z3.is_not(cond) else cond
+    if not z3.is_app(c):
+        return False
+    k = c.decl().kind()
+    if k == z3.Z3_OP_SEQ_IN_RE:
+        return True
+    if k == z3.Z3_OP_SEQ_CONTAINS:
+        return z3.is_string_value(c.arg(1))
+    if k in (z3.Z3_OP_SEQ_PREFIX, z3.Z3_OP_SEQ_SUFFIX):
+        return z3.is_string_value(c.arg(0))
+    return False
+
+
 def _is_membership(cond):
     c = cond.arg(0) if z3.is_not(cond) else cond
     return z3.is_app_of(c, z3.Z3_OP_SEQ_IN_RE)
